@@ -74,6 +74,14 @@ fn gen_plan(seed: u64, tier: &str) -> Value {
         cmds.push(json!(["install"]));
         cmds.push(json!(if r.chance(1, 2) { vec!["restore"] } else { vec!["restore", "false"] }));
     }
+    // bias: uninstalling in two steps (the service first, the package later), where the second command finds no unit
+    if r.chance(1, 4) {
+        if r.chance(1, 2) {
+            cmds.push(json!(["install"]));
+        }
+        cmds.push(json!(["uninstall", "service"]));
+        cmds.push(json!(["uninstall", "package"]));
+    }
     while cmds.len() < n as usize {
         cmds.push(match r.below(8) {
             0 => json!(["backup"]),
